@@ -148,7 +148,15 @@ def nested_modes(run: lib.Run) -> None:
             def expand(self, roles):
                 seen.append(inner.evaluate_sync(*coerced).allowed)
                 return list(roles)
-        outer = Guard(pol, strict_types=outer_strict, role_resolver=Res())
+
+        class Rel:
+            def check(self, subject, relation, resource, *, context=None):
+                seen.append(inner.evaluate_sync(*coerced).allowed)      # asked in the middle of the outer engine's rule evaluation
+                return True
+        pol_rel = {"algorithm": "deny-overrides", "rules": [dict(pol["rules"][0], condition={"rel": "viewer"}),
+                                                            {"id": "w", "effect": "deny", "actions": ["read"], "resource": {"type": "*"},
+                                                             "condition": {"not": {"rel": "viewer"}}}]}
+        outer = Guard(pol_rel, strict_types=outer_strict, role_resolver=Res(), relationship_checker=Rel())
         box: dict = {}
 
         def go():
@@ -161,9 +169,10 @@ def nested_modes(run: lib.Run) -> None:
         th.join(20)
         run.evaluations += 1
         run.count("nested-modes")
-        want = {"outer": not outer_strict, "inner": [outer_strict]}     # the lax one matches 7 ~ "7", the strict one does not
+        # the lax one matches 7 ~ "7", the strict one does not; the inner engine is asked by the resolver and by every rel lookup
+        want = {"outer": not outer_strict, "inner": [outer_strict] * len(seen)}
         got = {"outer": box.get("d", "did not return"), "inner": seen}
-        if got != want:
+        if got != want or len(seen) < 2:
             run.spec_failures.append({"target": None, "nested": True, "outer_strict": outer_strict, "observed": got, "expected": want,
                                       "spec": "an engine evaluated inside another engine's decision matched in the other engine's type mode"})
 
